@@ -28,7 +28,7 @@ BOUNDS = {
            "paragraph styles; F-text: 16 markup-significant tokens x space x repetition; F-time: begin/end over {0, 1/2 ms, 1 ms, "
            "3/2 ms, 1, 1+1/3 ms, 2, 2.0004, 2.0012, unbounded} for one and two paragraphs; F-ruby; each x SRT {text_formatting} and VTT "
            "{line_position, text_align, cue_id}^3",
-  "thorough": "same (the families are already complete products)",
+  "thorough": "F-style with every style of the menu on the paragraph as well (11^4 documents); the rest as quick (complete products)",
 }
 ASSUMPTIONS = [
   "the reference timeline comes from R_isd (mc/ref_isd.py); lines are compared after white-space normalisation",
@@ -191,13 +191,13 @@ def _mkfam(name, n, mkspec, configs, note):
   return Family(name, n * nc, dec, check, timeout=30, note=note)
 
 
-def families(check_fn, configs=None):
+def families(check_fn, configs=None, thorough=False):
   """the document x configuration families (shared with C07 through `check_fn`)"""
   cfgs = configs or wc.ALL_CONFIGS
   fams = []
   ps = wc.fam_struct_items()
   fams.append(("F-struct", ps.n, lambda i: wc.struct_doc(*ps.decode(i)), cfgs, "regions x div layouts x br patterns x timings"))
-  st = wc.fam_style_items()
+  st = wc.fam_style_items(thorough)
   fams.append(("F-style", st.n, lambda i: wc.style_doc(*st.decode(i)), [c for c in cfgs if c in (("srt", True), ("srt", False), ("vtt", False, False, True), ("vtt", True, True, False))],
                "nested span styles (set/reset) x paragraph style"))
   tx = wc.fam_text_items()
@@ -220,4 +220,4 @@ def families(check_fn, configs=None):
 
 
 def plan(tier, seed):
-  return families(check)
+  return families(check, thorough=tier == "thorough")
